@@ -49,7 +49,10 @@ end Prog
 tokens and whitespace tokens) are removed from the forest -/
 def Prog.stripComments (p : Prog Tok) : Prog Tok := p.strip Tok.isCode
 
-/-- a comment token whose text is a suppression marker (`C17.marker_recognition`) -/
+/-- a comment token whose text is a suppression marker.  The text test is the MODEL's function
+`isNoclText` (`Model/Lex.lean`, tied to `filter_nocl_comment_tokens`); what it accepts is stated
+independently in `C17.marker_recognition` (optional leader `#` `;` `//` `/*`, blanks, `nocl` in any
+letter case, anything), and `C01marks.marked_line_iff_text` restates `markedLines` with it -/
 def Tok.isMarker (t : Tok) : Bool := t.isComment && isNoclText t.val
 
 /-- **the marked lines** of a located forest: the lines of its marker comments -/
@@ -119,11 +122,46 @@ def treeReportFlatNamed : Prog Tok → List (Tok × Measurement)
     (hdr.flat.getD k default, nodeMeasurement hdr k cl (allToks hdr gap op cl body))
       :: treeReportFlatNamed rest
 
+/-- the name tokens of the OUTERMOST function nodes of a forest (those not inside another function
+node), in source order -/
+def Prog.outerNameToks : Prog Tok → List Tok
+  | .nil => []
+  | .leaf _ rest => outerNameToks rest
+  | .group _ _ items rest => outerNameToks items ++ outerNameToks rest
+  | .fn hdr k _ _ _ _ rest => hdr.flat.getD k default :: outerNameToks rest
+
+/-- **the visible functions of a language WITHOUT nested reporting**, given the marked `lines`:
+the name tokens of the function nodes that are named on an unmarked line and are not inside a
+function node named on an unmarked line.  A function node named on a MARKED line is skipped and
+the search goes on INSIDE its body (marking an enclosing function reveals the functions nested in
+it); the body of an unmarked function node is not searched. -/
+def Prog.visibleNameToks (lines : List Nat) : Prog Tok → List Tok
+  | .nil => []
+  | .leaf _ rest => visibleNameToks lines rest
+  | .group _ _ items rest => visibleNameToks lines items ++ visibleNameToks lines rest
+  | .fn hdr k _ _ _ body rest =>
+    if lines.contains (hdr.flat.getD k default).line then
+      visibleNameToks lines body ++ visibleNameToks lines rest
+    else hdr.flat.getD k default :: visibleNameToks lines rest
+
 /-- the report of language `L` on an effective forest, every entry paired with the name token of
 its function node: all function nodes with own lines if `L` reports nested functions, otherwise
 the outermost function nodes with all their lines -/
 def langReportNamed (L : Language) (q : Prog Tok) : List (Tok × Measurement) :=
   if L.nested = true then treeReportNamed q else treeReportFlatNamed q
+
+/-- **the functions a language is expected to report for a located forest with comments and
+markers** (C17, "omitted exactly when"), as name tokens of function nodes of the comment-free
+forest, in source order:
+
+* `L` reports nested functions: exactly the function nodes whose NAME token stands on a line
+  without marker comment;
+* `L` does not: of those, the ones that are not inside another function node named on an unmarked
+  line (`Prog.visibleNameToks`: a marked enclosing function does not hide them). -/
+def expectedNames (L : Language) (p : Prog Tok) : List Tok :=
+  if L.nested = true then
+    p.stripComments.nameToks.filter (fun t => !(markedLines p).contains t.line)
+  else p.stripComments.visibleNameToks (markedLines p)
 
 /-- **the functions named on line `l` are independent**: every function node whose name token
 stands on line `l` contains no function node, and no function node contains one of them
